@@ -18,12 +18,16 @@ directly calling GIT (for development).
         pass
 
     try:
+        import os
         import subprocess
+        # describe the source tree of the package, not the directory the user happens to be in
+        here = os.path.dirname(os.path.abspath(__file__))
         version = subprocess.check_output(
-            ["git", "describe", "--tags", "--always"]).strip().decode('utf-8')
+            ["git", "describe", "--tags", "--always"],
+            cwd=here, stderr=subprocess.DEVNULL).strip().decode('utf-8')
         return version
-    except subprocess.CalledProcessError:
-        pass
+    except (subprocess.CalledProcessError, OSError):
+        return 'unknown version'
 
 
 # Project info
